@@ -392,6 +392,8 @@ def run(ctx, res):
     res.guard(RR_.rule_thread_exit, prog, res)
     res.guard(RR_.rule_stop_armed, prog, res, "R-STATE")   # "Armed after stop or abort"
     res.guard(RR_.rule_start_reset, prog, res)             # "Running only while workers are alive": flags set before the worker exists
+    res.guard(RR_.rule_start_unwind, prog, res)
+    res.require_min("R-START-UNWIND", 9)
     res.require_min("R-START-RESET", 6)
     res.guard(identifier_tracked, prog, res)
     res.require_min("R-IDENT-EQ", 4)
